@@ -24,7 +24,7 @@ TECHNIQUE = "property-based testing: Hypothesis random inputs, ALL/ANY results v
 DESIGN_REF = "DESIGN.md section 5 (C05)"
 RULE = (
     "Hypothesis cases as in C01-C03 (group plain: <=5 object/<=5 species leaves; ordered: <=5/<=4, <=4 families, consistent or not, optional "
-    "prescribed root; unordered: <=6/<=4, <=4 families; one more leaf on each side in the thorough tier), coherent costs.  Checked per algorithm of the group: canonical(ALL) has no repeats and "
+    "prescribed root; plain inputs have unnamed ancestral nodes in half of the cases (solutions then read by clades); unordered: <=6/<=4, <=4 families; one more leaf on each side in the thorough tier), coherent costs.  Checked per algorithm of the group: canonical(ALL) has no repeats and "
     "equals the oracle's complete optimal set; ANY returns exactly one solution, member of that set; every returned solution valid with cost == "
     "optimum; empty iff the oracle has no solution.  Non-trivial: the optimal set has >=2 members (ties) and the object tree >=3 leaves; "
     "distinct by SHA-1 of the case."
@@ -54,6 +54,7 @@ def _case(draw, big=False):
     else:
         case = draw(gen.rec_case(max_obj=6 + extra, max_sp=4 + extra, costs="coherent", labelled=True, max_fam=4, allow_inconsistent=False))
     case["_group"] = group
+    case["_unnamed"] = group == "plain" and draw(st.booleans())
     return case
 
 
@@ -66,7 +67,13 @@ def check(case):
     inst = Instance(case)
     labels = common_labels(inst, labelled=group != "plain") + [f"group={group}"]
     proot = prescribed_root_of(inst) if group == "ordered" else None
-    inp = pkg.make_input(case, labelled=group != "plain")
+    unnamed = bool(case.get("_unnamed"))
+    if unnamed:
+        # ancestors without names (library path): solutions are then read by clades
+        labels.append("unnamed_ancestors")
+        inp = pkg.make_input(pkg.strip_ancestor_names(case), labelled=False, label=False)
+    else:
+        inp = pkg.make_input(case, labelled=group != "plain")
     max_tie = 0
     any_set = None
     for algo in GROUPS[group]:
@@ -87,6 +94,13 @@ def check(case):
             continue
         got = Counter()
         for out in outs_all:
+            if unnamed:
+                m = pkg.mapping_names_by_clade(out, inst)
+                why = inst.mapping_valid(m)
+                if why is not None or inst.rec_cost(m) != opt or pkg.pkg_cost(out) != opt:
+                    raise Violation(f"{algo}.ALL.unnamed.invalid-or-not-optimal", observed={"mapping": m, "why": why, "package_cost": pkg.pkg_cost(out)}, expected=opt)
+                got[tuple(sorted(m.items()))] += 1
+                continue
             _m, _lab, tot = validate_output(inst, out, algo, "ALL", proot)
             if tot != opt:
                 raise Violation(f"{algo}.ALL.cost!=oracle_min", observed=tot, expected=opt)
@@ -103,8 +117,11 @@ def check(case):
             raise Violation(f"{algo}.ALL!=oracle_set.extra", observed=extra[:1], expected=f"{len(ref_set)} optimal solutions")
         if len(outs_any) != 1:
             raise Violation(f"{algo}.ANY.count", observed=len(outs_any), expected=1)
-        validate_output(inst, outs_any[0], algo, "ANY", proot)
-        one = pkg.canon_output(outs_any[0], labelled=mode != "plain", ordered=mode == "ordered")
+        if unnamed:
+            one = tuple(sorted(pkg.mapping_names_by_clade(outs_any[0], inst).items()))
+        else:
+            validate_output(inst, outs_any[0], algo, "ANY", proot)
+            one = pkg.canon_output(outs_any[0], labelled=mode != "plain", ordered=mode == "ordered")
         if one not in ref_set:
             raise Violation(f"{algo}.ANY.not_in_ALL", observed=one, expected="member of the optimal set")
         max_tie = max(max_tie, len(ref_set))
